@@ -142,7 +142,7 @@ impl Property for C13 {
     fn assumptions(&self) -> Vec<String> {
         vec![
             "`strictly increased throughout the last tolerance recorded epochs` is read as the property's anchored mechanism states it: the last `tolerance` recorded losses form a strictly increasing sequence (tolerance-1 comparisons; a window of one value is vacuously increasing)".into(),
-            "trajectories containing a NaN validation loss are counted as degenerate (NaN is unordered)".into(),
+            "a NaN validation loss is not an increase: a window containing one is not strictly increasing".into(),
             "the number of epochs actually run is observed through the final parameters: they must equal the reference trainer's after len(train_loss) epochs (1e-4 relative)".into(),
         ]
     }
@@ -171,6 +171,7 @@ impl Property for C13 {
             "stop_at_first_possible_epoch",
             "stop_later_than_first_possible_epoch",
             "budget_le_tolerance",
+            "nan_in_trajectory",
         ]
     }
 
@@ -277,9 +278,9 @@ impl Property for C13 {
 
         // ---- the stopping rule over the recorded history --------------------------------
         if sc.val.is_some() {
-            if got.val_loss.iter().any(|l| l.is_nan()) {
-                return Outcome::Degenerate("validation loss is NaN (unordered trajectory)".into());
-            }
+            // A NaN validation loss is not an increase: `stop` uses `<`, which is false for
+            // every comparison that involves a NaN.
+            stats.probe("nan_in_trajectory", got.val_loss.iter().any(|l| l.is_nan()));
             for e in 1..run {
                 if stop(&got.val_loss, e, tol) {
                     return viol(
